@@ -67,7 +67,7 @@ pub fn cases(tier: Tier) -> Vec<GCase> {
                     let x3 = (xy + y1x2) * inv(dx);
                     let y3 = (p1c.y * p2c.y + p1c.x * p2c.x) * inv(dy);
                     let lo = h.meta.lo;
-                    devs.push(crate::e2::Dev { script: vec![(lo, xy), (lo + 1, x3), (lo + 2, y3)], tag: format!("forged-helper{}", tag) });
+                    devs.push(crate::e2::Dev { script: vec![(lo, xy), (lo + 1, x3), (lo + 2, y3)], tag: format!("forged-helper{}", tag), must_confirm: true });
                 }
                 devs
             }));
